@@ -97,6 +97,7 @@ type Req struct {
 	Method  string              `json:"m"`
 	Path    string              `json:"p"`
 	WFaults []WFault            `json:"wf,omitempty"`
+	Gone    bool                `json:"gone,omitempty"` // the client has gone: the request's context is already cancelled when it arrives
 	Over    map[string][]Action `json:"over,omitempty"` // per-request script overrides
 }
 
